@@ -63,7 +63,7 @@ PROP = dict(
     bin="c12",
     run_targets=["Run/RunC12.vo"],
     prop_targets=["Properties/C12.vo"],
-    cases=dict(quick=5000, thorough=50000),
+    cases=dict(quick=5000, thorough=40000),
     level="proof",
     rule="each case = algorithm (Greedy | KarmarkarKarp) x weight family (small alphabet, random, ties, one dominant, "
          "zeros, all equal, tiny incl. empty, large values up to 2^40, two values, powers of two, one negative weight) "
@@ -73,7 +73,9 @@ PROP = dict(
          "lengths, at least 2 parts, at least 3 weights, not all weights zero",
     class_names={0: "Ok (exact partition compared)", 1: "InputLenMismatch", 2: "other error", 3: "panic", 4: "hang",
                  5: "Ok (k-way KK: loads compared; partition also identical)",
-                 6: "Ok (k-way KK: loads compared; partition differs)"},
+                 6: "Ok (k-way KK: loads compared; partition differs)",
+                 7: "Ok (k-way KK, more than 20 parts: checker only; partition identical)",
+                 8: "Ok (k-way KK, more than 20 parts: checker only; partition differs)"},
     trusted_base=[
         "axioms: none (every theorem of Properties/C12.v is closed under the global context)",
         "modelled, not verified: i64 overflow of part loads / row sums (contract: sums do not overflow); allocation of "
@@ -82,8 +84,9 @@ PROP = dict(
         "sort_unstable_by(partial_cmp) on (weight, index) pairs with distinct indices returns THE sorted vector",
         "Iterator::min_by = reduce keeping the accumulator unless the comparator answers Greater (std source)",
         "k-way KarmarkarKarp: the tie order of `e.sort_unstable_by` is unspecified; the theorems hold for every weight-descending "
-        "permutation, the executed instance is the stable insertion sort and the correspondence compares sorted part loads "
-        "(class 5/6 records whether the partitions were also identical: they were in every run so far)",
+        "permutation, the executed instance is the stable insertion sort (what std runs on slices of at most 20 elements) and "
+        "the correspondence compares sorted part loads for 3..20 parts (classes 5/6 record whether the partitions were also "
+        "identical); with more than 20 parts ties do come out differently, only the certified checker judges (classes 7/8)",
     ],
     assumptions=[
         "weights are non-negative integers (i64; f64 holding integers below 2^53 for Greedy) whose sums do not overflow; part count >= 1",
